@@ -55,6 +55,8 @@ template <class K, size_t S> struct Runner : IRunner {
   using Tbl = libcuckoo::cuckoohash_map<K, uint64_t, VHash, std::equal_to<K>, VAlloc<std::pair<const K, uint64_t>>, S>;
   using LT = typename Tbl::locked_table;
   std::unique_ptr<Tbl> tabs[8];
+  bool moved_from[8] = {false, false, false, false, false, false, false, false};
+  unsigned nswap = 0;
   std::unique_ptr<LT> lts[8];
   std::string wires[8];
   static K mk(uint64_t v) { return MakeKey<K>::make(v); }
@@ -103,9 +105,31 @@ template <class K, size_t S> struct Runner : IRunner {
     auto num = [&](size_t i) { return (uint64_t)strtoull(w[i].c_str(), 0, 10); };
     if (op == "new" && w.size() == 3) {
       lts[id].reset();
+      moved_from[id] = false;
       return guard([&] { tabs[id].reset(new Tbl(num(2))); return std::string("ok"); });
     }
-    if (!tabs[id]) return "bad-table";
+    if ((op == "copy" || op == "move" || op == "swap") && w.size() == 3) {
+      size_t src = num(2);
+      if (src >= 8 || !tabs[src] || moved_from[src] || lts[src] || lts[id]) return "bad-table";
+      if (op == "swap") {
+        if (!tabs[id] || moved_from[id]) return "bad-table";
+        if (nswap++ % 2 == 0) tabs[id]->swap(*tabs[src]); else { using std::swap; swap(*tabs[id], *tabs[src]); }
+        return "ok";
+      }
+      return guard([&] {
+        if (op == "copy") {
+          if (tabs[id]) *tabs[id] = *tabs[src];            // copy assignment (also onto a moved-from object)
+          else tabs[id].reset(new Tbl(*tabs[src]));        // copy construction
+        } else {
+          if (tabs[id]) *tabs[id] = std::move(*tabs[src]); // move assignment
+          else tabs[id].reset(new Tbl(std::move(*tabs[src])));
+          moved_from[src] = true;
+        }
+        moved_from[id] = false;
+        return std::string("ok");
+      });
+    }
+    if (!tabs[id] || moved_from[id]) return "bad-table";
     Tbl &t = *tabs[id];
     if (w.size() == 3) {
       uint64_t a = num(2);
